@@ -758,6 +758,20 @@ pub fn corner_extras() -> Vec<SysSpec> {
     if INIT_INPUT_EXTRAS { out.push(mk("X-initinput", vec![("b2", 2)], vec![st("a2", 2, Some(bb()), Some(b(Bin::Add, a(), bb())))], vec![b(Bin::Eq, a(), l(2, 3))], vec![])); }
     if INIT_INPUT_EXTRAS { out.push(mk("X-initinput", vec![("b2", 2)], vec![st("a2", 2, Some(b(Bin::And, bb(), l(2, 1))), Some(inc(a())))], vec![b(Bin::Eq, a(), l(2, 3))], vec![])); }
     if INIT_INPUT_EXTRAS { out.push(mk("X-initinput", vec![("b2", 2), ("b1", 1)], vec![st("a2", 2, Some(bb()), Some(inc(a())))], vec![b(Bin::Eq, a(), l(2, 2))], vec![T::not(b(Bin::Eq, bb(), l(2, 2))), f()])); }
+    // two init cones sharing an input / a multiply-used term / an earlier init-less state
+    {
+        let sh = || b(Bin::And, bb(), l(2, 2));
+        out.push(mk("X-initshare", vec![("b2", 2)], vec![st("a2", 2, Some(bb()), Some(inc(a()))), st("c2", 2, Some(bb()), Some(c()))], vec![b(Bin::And, b(Bin::Eq, a(), l(2, 3)), b(Bin::Eq, c(), l(2, 1)))], vec![]));
+        out.push(mk("X-initshare", vec![("b2", 2)], vec![st("a2", 2, Some(sh()), Some(inc(a()))), st("c2", 2, Some(b(Bin::Add, sh(), l(2, 1))), Some(c()))], vec![b(Bin::Eq, b(Bin::Add, a(), c()), l(2, 1))], vec![]));
+        let sx = || b(Bin::Xor, s("d2", 2), l(2, 1));
+        out.push(mk(
+            "X-initshare",
+            vec![],
+            vec![st("d2", 2, None, Some(s("d2", 2))), st("a2", 2, Some(sx()), Some(inc(a()))), st("c2", 2, Some(b(Bin::Add, sx(), sx())), Some(c()))],
+            vec![b(Bin::And, b(Bin::Eq, a(), l(2, 2)), b(Bin::Eq, c(), l(2, 0)))],
+            vec![],
+        ));
+    }
     // a free state (neither init nor next) feeding a counter
     out.push(mk("X-freefeed", vec![], vec![st("a2", 2, None, None), st("b2", 2, Some(l(2, 0)), Some(b(Bin::Add, bb(), a())))], vec![b(Bin::Eq, bb(), l(2, 3))], vec![b(Bin::Ugt, l(2, 2), a())]));
     // labelled roots as the btor2 reader leaves them: an input that is directly an output / a bad state / a
